@@ -9,6 +9,7 @@ import (
 
 	"github.com/mr-tron/base58"
 	"github.com/nspcc-dev/neo-go/pkg/encoding/address"
+	"github.com/nspcc-dev/neo-go/pkg/neotest"
 	"github.com/nspcc-dev/neo-go/pkg/util"
 )
 
@@ -78,6 +79,7 @@ type CntDriver struct {
 	never   []byte
 	key33   []byte
 	tldTS   uint64
+	preTS   uint64 // block time of the registration of pre.container
 }
 
 // OwnerID is the 25-byte NeoFS owner id (decoded Neo address) of a script hash.
@@ -123,6 +125,8 @@ func NewCntDriver() *CntDriver {
 		cntOp{kind: "putNamed", i: 1, name: "nice", signer: "S"},
 		cntOp{kind: "putNamed", i: 0, name: "other", signer: "C"},
 		cntOp{kind: "putNamed", i: 2, name: "other", signer: "C"},
+		cntOp{kind: "putNamed", i: 0, name: "pre", signer: "C"}, // a name on the domain the committee registered in advance
+		cntOp{kind: "putNamed", i: 1, name: "pre", signer: "C"},
 		cntOp{kind: "putMeta", i: 0, signer: "C"},
 		cntOp{kind: "putMeta", i: 2, signer: "C"},
 		cntOp{kind: "setEACL", i: 0, table: 1, signer: "C"},
@@ -159,6 +163,11 @@ func (d *CntDriver) Build() *World {
 	w.Deploy("container", CompileDir(Repo, "container"), []any{int64(0), dn.Hash, db.Hash, di.Hash, w.Contracts["nns"].Hash, "container"})
 	tb, _ := w.BC.GetBlock(w.BC.GetHeaderHash(w.BC.BlockHeight()))
 	d.tldTS = tb.Timestamp
+	// a domain of the alias zone registered in advance by the committee, which owns it (the other way a name gets
+	// there; the contract then only adds and removes records)
+	w.Invoke(w.Contracts["nns"].Hash, []neotest.Signer{w.CommS}, "register", "pre.container", w.Comm, "a@b.c", int64(3600), int64(600), int64(tenYearsMs/1000), int64(3600))
+	tb, _ = w.BC.GetBlock(w.BC.GetHeaderHash(w.BC.BlockHeight()))
+	d.preTS = tb.Timestamp
 	w.Acct("S")
 	w.Freeze()
 	return w
@@ -166,7 +175,7 @@ func (d *CntDriver) Build() *World {
 
 func (d *CntDriver) Init(w *World) Model {
 	// container TLD was registered in the block that deployed the container contract
-	return &cntModel{doms: map[string]nnsDom{}, now: w.TS, tldExp: d.tldTS + tenYearsMs}
+	return &cntModel{doms: map[string]nnsDom{"pre.container": {exp: d.preTS + tenYearsMs}}, now: w.TS, tldExp: d.tldTS + tenYearsMs}
 }
 func (d *CntDriver) NumOps() int { return len(d.ops) }
 func (d *CntDriver) OpName(_ *Node, i int) string {
